@@ -5,7 +5,8 @@
 From Coq Require Import String List NArith ZArith Bool.
 From RPFT Require Import Base.Sexp Base.PyStr Base.Result Base.ODict Gen.Tables Cell.Cell Row.Ty Row.Layout Row.RowParse
   Row.RowUnparse Row.FlowRow Row.RowFacts Row.ParseFold Row.Encodes Row.EncodesFacts Row.FlowHeaderFacts
-  Row.HeaderFacts Row.StarFacts Row.ReorderFacts Row.EncodesExamples Row.PaddedTypeFacts.
+  Row.HeaderFacts Row.StarFacts Row.ReorderFacts Row.EncodesExamples Row.PaddedTypeFacts
+  Cell.CellSession Row.RowSession Row.RowSessionFacts.
 Import ListNotations.
 
 Theorem C09_tables_ok : row_tables_ok = true.
@@ -323,3 +324,41 @@ Example C09_padded_type_witness :
   /\ flow_parse flow_padded_short = if cx_sw_strip flow_cx then flow_parse flow_padded_long else Err EKey.
 Proof. exact padded_type_witness. Qed.
 Print Assumptions C09_padded_type_witness.
+
+(* ---- the rows of a sheet on ONE RowParser object (Row/RowSession.v: rp_state = self.model, self.cell_parser and
+   self.output — the one attribute parse_row assigns, reinitialised by every call; rp_run = the rows in order).
+   Every row parses to what the same row parses to on a new RowParser, whatever rows came before ... *)
+Theorem C09_sheet_run_is_map : forall st rows, snd (rp_run st rows) = map (parse_row (rp_rm st)) rows.
+Proof. exact rp_run_results. Qed.
+Print Assumptions C09_sheet_run_is_map.
+
+Theorem C09_row_history_independent : forall st pre cells post,
+  nth_error (snd (rp_run st (pre ++ cells :: post))) (length pre) = Some (parse_row (rp_rm st) cells).
+Proof. exact rp_history_independent. Qed.
+Print Assumptions C09_row_history_independent.
+
+(* ... what the object holds after a sheet depends on its last row only ... *)
+Theorem C09_sheet_state_after : forall st rows cells,
+  fst (rp_run st (rows ++ [cells])) = mk_rp (rp_rm st) (rp_cell st) (row_output (rp_rm st) cells).
+Proof. exact rp_state_after. Qed.
+Print Assumptions C09_sheet_state_after.
+
+(* ... hence the property at any point of any sheet: a row that encodes v parses to v, and two layouts of one value,
+   in two different sheets at any positions, give equal row models *)
+Theorem C09_encodes_parse_in_history : forall rm pre post v cells,
+  Encodes rm v cells ->
+  nth_error (snd (rp_run (rp_init rm) (pre ++ cells :: post))) (length pre) = Some (Ok v).
+Proof. exact encodes_parse_in_history. Qed.
+Print Assumptions C09_encodes_parse_in_history.
+
+Theorem C09_layout_independent_in_history : forall rm pre1 post1 pre2 post2 v c1 c2,
+  Encodes rm v c1 -> Encodes rm v c2 ->
+  nth_error (snd (rp_run (rp_init rm) (pre1 ++ c1 :: post1))) (length pre1)
+  = nth_error (snd (rp_run (rp_init rm) (pre2 ++ c2 :: post2))) (length pre2).
+Proof. exact layout_independent_in_history. Qed.
+Print Assumptions C09_layout_independent_in_history.
+
+Example C09_sheet_nonvacuous :
+  snd (rp_run (rp_init rmR) [cells_packed; cells_spread; cells_star]) = [Ok vR; Ok vR; Ok vR].
+Proof. exact sheet_nonvacuous. Qed.
+Print Assumptions C09_sheet_nonvacuous.
